@@ -1,9 +1,10 @@
 """C18 — String formatting produces exactly CPython's text (DESIGN 7/C18)."""
 import json, os, re, struct
 import cybuild
+from props import C18_fstr
 
 TITLE = "String formatting produces exactly CPython's text"
-EXTRACTS = ["IntFmt"]
+EXTRACTS = ["IntFmt", "FStr"]
 RULE = ("(C type, format spec, value): specs drawn from the format-spec mini-language grammar (fill, align, sign, #, 0, "
         "width, grouping, precision, type) plus the family the C fast path accepts ([>-]?0*width[doxXc]); values = type "
         "bounds, digit-count boundaries (b^k, b^k-1 for b in 8,10,16), 0x110000/0x200000/2^32 neighbourhoods for 'c', PRNG "
@@ -12,7 +13,12 @@ RULE = ("(C type, format spec, value): specs drawn from the format-spec mini-lan
         "integer type reaching the helper (13 + char, ctypedef, inexact extern typedefs, enum) x widths 0..5 and around the "
         "helper's 250-padding/256-byte limit (100, 249..258, 300) x pads ' ' and '0' x values at both sides of every branch "
         "of the range test, the (int) cast, the Latin-1/2-/3-/4-byte encoder guards, the surrogate hole and every bit-field "
-        "edge of the encoded bytes, plus an in-module sweep of EVERY int in range(0x110200) against str.format. Distinct by "
+        "edge of the encoded bytes, plus an in-module sweep of EVERY int in range(0x110200) against str.format. f-strings as part "
+        "lists (props/C18_fstr.py): parts = literal | placeholder(variable of each static class C int / double / bint / str not None / "
+        "str-or-None / bytes / int object / list / generic object with logging __format__/__repr__/__str__, conversion none/!s/!r/!a, "
+        "spec none / empty / literal accepted or not by the C formatter / nested) | constant operand | debug specifier; every ordered "
+        "pair of conversions and of spec kinds for two and three occurrences of the same variable, shapes of 0/1/2 parts, padded c "
+        "specs in joins, random lists of 0..6 parts, the same lists as %-templates; 4 value tuples per list. Distinct by "
         "(form, type, spec/template, value); non-trivial = the value reaches the digit loop / padding / error branch of its stratum")
 EXPLANATION = ("theorems: for EVERY width w>=1 (sizeof = ceil(w/8)), both signednesses, every in-range value, every width/padding "
                "character and each of d/o/x/X the C loop of CIntToPyUnicode (two digits at a time, last_one_off, sign, "
@@ -27,10 +33,21 @@ EXPLANATION = ("theorems: for EVERY width w>=1 (sizeof = ceil(w/8)), both signed
                "abstract one for every int, width >= 2 and ASCII pad, hence equals CPython's format(v, 'c'-spec); the text has "
                "max(width,1) characters (padding then the code point); chars[256] suffices for every width. The model's decoder / "
                "encoder are run against CPython's utf-8 codec, its constants against the C source text. "
-               "partial: the compiler's mapping of a spec string to (type,width,pad) (_parse_format), the %-template rewrite, "
+               "f-string assembly (M_FStr.v): for EVERY part list, every formatting function, every assignment of static classes, the "
+               "compiler's rewrites (constant operands, empty specs, literal merging, 0/1/2-part shapes, str shortcuts, CloneNode "
+               "de-duplication keyed by (name, c_format_spec, format_spec node, conversion or s)) produce CPython's text and leave the "
+               "sequence of formatting calls on generic objects unchanged; the key without the conversion and de-duplication of generic "
+               "objects are refuted by witnesses; the rewritten node list of every generated f-string (dumped after FinalOptimizePhase) and "
+               "the (length, kind) arguments of __Pyx_PyUnicode_Join in the generated C are compared with the model; the kind computation "
+               "is refuted as written for padded c specs (finding). "
+               "partial: the length/kind arguments of the join are modelled and tied but their correctness theorem (length = sum of the "
+               "value lengths, kind covers every character) is not proved; the compiler's mapping of a spec string to (type,width,pad) (_parse_format), the %-template rewrite, "
                "double formatting (PyOS_double_to_string) and object formatting (PyObject_Format) are compared differentially "
                "with CPython only.")
 TRUSTED = ["CPython's format()/%/str()/repr() in the running interpreter as the property oracle",
+           "f-string model: formatting a value of a builtin type (str, bytes, int, float, list ...) is taken to be pure and format(x, '') = str(x) "
+           "for it (hypotheses of the theorem); names are not re-bound while the f-string is evaluated; which literal specs the C formatter "
+           "accepts is an input of the model (table in props/C18_fstr.py, compared with the compiler's c_format_spec in the node dump)",
            "model of C arithmetic: explicit wrap per conversion (Lib/CInt.v); C '/' and '%' = Z.quot/Z.rem",
            "PyUnicode_FromOrdinal / DecodeLatin1 modelled by their documented contract; PyUnicode_DecodeUTF8(errors=NULL) "
            "modelled as the strict RFC 3629 decoder utf8_decode (compared with bytes.decode('utf-8') on boundary and random byte strings)",
@@ -665,7 +682,12 @@ def run(ctx):
     if quick:
         for sp in bspecs:
             sp["cflags"] = ["-O0"]
+    import threading
+    fst = C18_fstr.prepare(ctx, quick)
+    fth = threading.Thread(target=C18_fstr.build, args=(fst,))
+    fth.start()
     built = cybuild.build_many(bspecs, jobs=12)
+    fth.join()
     for (so, err), sp in zip(built, bspecs):
         if err is not None:
             ctx.corr_break("build " + sp["name"], sp["name"], str(err)[:1500], "module builds")
@@ -685,6 +707,10 @@ def run(ctx):
             ctx.corr_break("table " + name, name, ct[name], txt)
 
     nbad = {}
+    # ---- f-strings as part lists: the compiler's rewrites vs M_FStr, join arguments, compiled vs CPython
+    t1 = time.time()
+    C18_fstr.check(ctx, fst, ctx.model("fstr"), nbad)
+    ctx.note("f-string part lists: %.0f s" % (time.time() - t1))
     # ---- the padded 'c' path (byte-level model, all code points)
     t1 = time.time()
     run_chr(ctx, wd, model, quick, nbad)
